@@ -111,8 +111,29 @@ BOUNDARY_WEIGHTS = [["1/2", "500001/1000000"], ["499999/1000000", "1/2"], ["1/4"
                     ["1048575/1048576", "1/1048576"], ["1/1073741824", "1/2", "536870911/1073741824"]]
 
 
+T40, T52, T60 = 2 ** 40, 2 ** 52, 2 ** 60
+# tiny positive probabilities (2^-40, 2^-52, 2^-60: far below np.isclose's atol) first / in the middle of a support
+TINY_WEIGHTS = [["1/%d" % T40, "%d/%d" % (T40 - 1, T40)], ["1/2", "1/%d" % T40, "%d/%d" % (T40 // 2 - 1, T40)],
+                ["1/%d" % T52, "%d/%d" % (T52 - 1, T52)], ["1/%d" % T60, "1/2", "1/2"]]
+BOUNDARY_WEIGHTS += TINY_WEIGHTS
+# non-dyadic rows whose double sum is not exactly 1 (0.7+0.2+0.1), thirds, sevenths, tenths
+NONDYADIC_WEIGHTS = [["7/10", "1/5", "1/10"], ["1/3", "1/3", "1/3"], ["1/7", "2/7", "4/7"], ["1/10", "9/10"], ["1/3", "2/3"],
+                     ["1/10", "1/5", "7/10"]]
+NONDYADIC_REWARDS = ["1/10", "1/3", "-7/10", "22/7", "-1/3", "3/10"]
+# stream values below every tiny weight (2^-70) and just above 1/2 (1/2 + 2^-45): they select the tiny entries
+U_TINY, U_HALF_PLUS = [1, 70], [2 ** 44 + 1, 45]
+
+
+def is_dyadic_ws(ws):
+    return all(F(x).denominator & (F(x).denominator - 1) == 0 for x in ws)
+
+
+def ufrac(x):
+    return F(x[0], 2 ** x[1]) if isinstance(x, list) else F(x, DEN)
+
+
 def _check_templates():
-    for ws in BOUNDARY_WEIGHTS:
+    for ws in BOUNDARY_WEIGHTS + NONDYADIC_WEIGHTS:
         tot = sum(F(w) for w in ws)
         cum = F(0)
         for w in ws[:-1]:
@@ -127,34 +148,46 @@ def _check_templates():
 _check_templates()
 
 
-def gen_boundary_dist(rng, allowed):
+def gen_boundary_dist(rng, allowed, dyadic=False, pool=None):
     allowed = list(allowed)
-    cands = [ws for ws in BOUNDARY_WEIGHTS if len(ws) <= len(allowed)]
+    pool = pool or (BOUNDARY_WEIGHTS + NONDYADIC_WEIGHTS + TINY_WEIGHTS)
+    cands = [ws for ws in pool if len(ws) <= len(allowed) and (not dyadic or is_dyadic_ws(ws))]
     if not cands:
         return None
     ws = rng.choice(cands)
     return {"t": "dict", "items": [[x, w] for x, w in zip(rng.sample(allowed, len(ws)), ws)]}
 
 
-def perturb_mdp(rng, m):
+def perturb_mdp(rng, m, dyadic=False):
     """parameter boundaries inside the MDP: a transition row with probabilities 2^-30 / 1-2^-20, rewards of
     magnitude 1e3..1e6 (one sign only, so that no return is a small difference of large numbers)"""
     m = copy.deepcopy(m)
     feats = []
     rows = [k for k, row in m["trans"].items() if not m["absorbing"][int(k.split(",")[0])]]
-    if rows and m["n"] >= 2 and rng.random() < .5:
+    if m["n"] >= 2 and rng.random() < .35:
+        d = gen_boundary_dist(rng, range(m["n"]), dyadic)
+        if d:
+            m["init"] = d["items"]
+            feats.append("boundary_init")
+    if not dyadic and m["reward"] and rng.random() < .5:
+        for k in rng.sample(sorted(m["reward"]), min(2, len(m["reward"]))):
+            r = rng.choice(NONDYADIC_REWARDS)
+            m["reward"][k] = r if F(m["gamma"]) != 1 or F(r) < 0 else str(-F(r))
+        feats.append("nondyadic_rewards")
+    if rows and m["n"] >= 2 and rng.random() < .6:
         k = rng.choice(rows)
-        d = gen_boundary_dist(rng, range(m["n"]))
+        d = gen_boundary_dist(rng, range(m["n"]), dyadic)
         if d:
             s, a = k.split(",")
             for ns, _ in m["trans"][k]:
                 m["reward"].pop("%s,%s,%d" % (s, a, ns), None)
             m["trans"][k] = d["items"]
             feats.append("boundary_row")
-    if m["reward"] and rng.random() < .5:
+    if m["reward"] and rng.random() < .4 and "nondyadic_rewards" not in feats:
         sign = -1 if F(m["gamma"]) == 1 else rng.choice([-1, 1])
         for k in rng.sample(sorted(m["reward"]), min(2, len(m["reward"]))):
-            m["reward"][k] = str(sign * F(rng.choice([1000, 123456, 10 ** 6]) * 4 + rng.choice([0, 1, 3]), 4))
+            # magnitudes 1e3 .. 1e9 with gaps of relative size 1e-6 (1e9 vs 1e9 + 1000.25), one sign
+            m["reward"][k] = str(sign * F(rng.choice([1000, 123456, 10 ** 6, 10 ** 9, 10 ** 9 + 1000]) * 4 + rng.choice([0, 1, 3]), 4))
         feats.append("big_rewards")
     return m, feats
 
@@ -193,7 +226,22 @@ def gen_opts(rng, m, allow_global=False):
         o["touch"] = True
     if allow_global and rng.random() < .12:
         o["use_global"] = True
+    if rng.random() < .15:
+        o["int_types"] = True        # integral rewards / probabilities / action-matrix entries as Python ints
     return o
+
+
+def has_tiny(case_or_list):
+    txt = repr(case_or_list)
+    return any(("/%d'" % t) in txt for t in (T40, T52, T60, 2 ** 30))
+
+
+def clean_dyadic(m, policy):
+    """every number of the case is exact in float32 (k/8 probabilities, quarter rewards, small magnitudes)"""
+    nums = [p for row in m["trans"].values() for _, p in row] + [p for _, p in m["init"]] + list(m["reward"].values())
+    if policy["kind"] == "tabular":
+        nums += [x for row in policy["matrix"] for x in row]
+    return all(F(x).denominator in (1, 2, 4, 8) and abs(F(x)) < 4096 for x in nums)
 
 
 def presented(m, opts):
@@ -211,10 +259,10 @@ def gen_policy(rng, m, dyadic, deterministic=False, kind=None):
     n, nA = m["n"], m["nA"]
     if kind == "functional":
         dists = [gen_dist(rng, m["actions"][s], range(nA), dyadic, deterministic) for s in range(n)]
-        if not deterministic and not dyadic:
+        if not deterministic:
             for s in range(n):
                 if rng.random() < .15:
-                    dists[s] = gen_boundary_dist(rng, m["actions"][s]) or dists[s]
+                    dists[s] = gen_boundary_dist(rng, m["actions"][s], dyadic) or dists[s]
         return {"kind": "functional", "dists": dists}
     mat = []
     for s in range(n):
@@ -251,11 +299,13 @@ def make_deterministic(m):
     return m
 
 
-def gen_stream(rng, L, dyadic):
+def gen_stream(rng, L, dyadic, tiny=.04):
     out = []
     for _ in range(L):
         r = rng.random()
-        if dyadic and r < .25:
+        if r > 1 - tiny:
+            out.append(rng.choice([U_TINY, U_TINY, U_HALF_PLUS]))
+        elif dyadic and r < .25:
             out.append(rng.randrange(0, 8) * (DEN // 8))          # exactly on the k/8 boundaries (ties)
         elif r < .3:
             out.append(rng.choice([1, DEN - 1]))
@@ -279,16 +329,21 @@ def gen_mdp_run(rng, tier):
     dyadic = rng.random() < .5
     m = gen_mdp_for(rng, tier, cap)
     bfeats = []
-    if not dyadic and rng.random() < .25:
-        m, bfeats = perturb_mdp(rng, m)
+    if rng.random() < .3:
+        m, bfeats = perturb_mdp(rng, m, dyadic)
     s0 = None if rng.random() < .5 else rng.randrange(m["n"])
     capn = 40 if cap in ("large", "default") else cap
     opts = gen_opts(rng, m, allow_global=True)
-    c = {"kind": "mdp_run", "mdp": m, "policy": gen_policy(rng, m, dyadic), "s0": s0, "cap": cap, "dyadic": dyadic,
+    policy = gen_policy(rng, m, dyadic)
+    if dyadic and policy["kind"] == "tabular" and opts.get("repr") == "matrices" and clean_dyadic(m, policy) and rng.random() < .6:
+        opts["float32"] = True       # float32 arrays for the MDP matrices and the policy table
+        opts.pop("int_types", None)
+    tiny = .25 if has_tiny([m, policy]) else .04
+    c = {"kind": "mdp_run", "mdp": m, "policy": policy, "s0": s0, "cap": cap, "dyadic": dyadic,
          "opts": opts, "boundary": bfeats, "omit_s0": s0 is None and rng.random() < .5,
-         "use_global": bool(opts.get("use_global")),
-         "stream": gen_stream(rng, 2 * capn + 3, dyadic),
-         "gstream": gen_stream(rng, (2 * capn + 3) if opts.get("use_global") else 4, dyadic)}
+         "use_global": bool(opts.get("use_global")), "twice": rng.random() < .1,
+         "stream": gen_stream(rng, 2 * capn + 3, dyadic, tiny),
+         "gstream": gen_stream(rng, (2 * capn + 3) if opts.get("use_global") else 4, dyadic, tiny)}
     if rng.random() < .3:
         # the same policy object is run a second time: on the same MDP object, or on a second MDP object with the
         # same labels and structure but other numbers
@@ -309,6 +364,9 @@ def gen_mdp_run(rng, tier):
                 s_, a_, ns_ = map(int, k.split(","))
                 if dweight({"t": "dict", "items": m2["trans"]["%d,%d" % (s_, a_)]}, ns_) == 0:
                     del m2["reward"][k]
+            if rng.random() < .5:
+                j = rng.randrange(m2["n"])           # a different stopping structure as well
+                m2["absorbing"][j] = not m2["absorbing"][j]
         c["second"] = {"mdp": m2, "s0": None if rng.random() < .5 else rng.randrange(m["n"]), "cap": cap2,
                        "use_global": False, "omit_s0": False,
                        "stream": gen_stream(rng, 2 * capn2 + 3, dyadic), "gstream": gen_stream(rng, 4, dyadic)}
@@ -326,19 +384,42 @@ def gen_mdp_eval(rng, tier, deterministic):
     bfeats = []
     if deterministic:
         m = make_deterministic(m)
-    elif not dyadic and rng.random() < .25:
-        m, bfeats = perturb_mdp(rng, m)
+    elif rng.random() < .3:
+        m, bfeats = perturb_mdp(rng, m, dyadic)
     n_sims = rng.choice([1, 2, 3, 5, 8])
     capn = 30 if cap == "large" else cap
     opts = gen_opts(rng, m)
+    if rng.random() < .3:
+        opts["second_eval"] = gen_stream(rng, 16, dyadic)
     if gamma in ("0", "1") and rng.random() < .3:
         opts["gamma_int"] = True             # discount_rate = 0 / 1 written as a Python int
     if rng.random() < .3:
         opts["warmup"] = gen_stream(rng, 12, dyadic)
-    return {"kind": "mdp_eval", "mdp": m, "policy": gen_policy(rng, m, dyadic, deterministic=deterministic), "cap": cap,
+    policy = gen_policy(rng, m, dyadic, deterministic=deterministic)
+    if deterministic and policy["kind"] == "tabular" and opts.get("repr") == "matrices" and rng.random() < .7:
+        opts["int_arrays"] = True    # 0/1 transition tensor and 0/1 policy table with integer dtype
+    elif dyadic and policy["kind"] == "tabular" and opts.get("repr") == "matrices" and clean_dyadic(m, policy) and rng.random() < .6:
+        opts["float32"] = True
+        opts.pop("int_types", None)
+    tiny = .25 if has_tiny([m, policy]) else .04
+    return {"kind": "mdp_eval", "mdp": m, "policy": policy, "cap": cap,
             "n_sims": n_sims, "dyadic": dyadic, "deterministic": deterministic, "step_guard_total": 45 + n_sims,
             "opts": opts, "boundary": bfeats,
-            "stream": gen_stream(rng, n_sims * (2 * capn + 1) + 3, dyadic), "gstream": gen_stream(rng, 16, dyadic)}
+            "stream": gen_stream(rng, n_sims * (2 * capn + 1) + 3, dyadic, tiny), "gstream": gen_stream(rng, 16, dyadic)}
+
+
+def gen_long(rng, tier, evaluate):
+    """episodes beyond 1000 steps (no absorbing state is ever reached): checked clause by clause in Python only"""
+    cap = rng.randint(1100, 1500)
+    m = gen_mdp.gen_mdp(rng, nmax=4, amax=2, gamma="1/2", goal=False, implicit_absorbing=False, min_states=2)
+    policy = gen_policy(rng, m, True)
+    if evaluate:
+        return {"kind": "mdp_eval", "mdp": m, "policy": policy, "cap": cap, "n_sims": 1, "dyadic": True, "deterministic": False,
+                "step_guard_total": cap + 10, "opts": {}, "boundary": [], "python_only": True,
+                "stream": gen_stream(rng, 2 * cap + 3, True), "gstream": gen_stream(rng, 4, True)}
+    return {"kind": "mdp_run", "mdp": m, "policy": policy, "s0": rng.choice([None, 0]), "cap": cap, "dyadic": True,
+            "opts": {}, "boundary": [], "omit_s0": False, "use_global": False, "step_guard": cap + 10, "python_only": True,
+            "stream": gen_stream(rng, 2 * cap + 3, True), "gstream": gen_stream(rng, 4, True)}
 
 
 RET_GAMMAS = gen_mdp.GAMMAS_DISC + ["1", "1/10", "0", "0", "1", "1/1024", "1/1024", "1048575/1048576", "1048575/1048576"]
@@ -359,7 +440,9 @@ def gen_returns(rng, mode="short"):
     if mode == "short" and rng.random() < .2:
         # large magnitudes, one sign (no return is a small difference of large numbers)
         sg = rng.choice([-1, 1])
-        rs = [str(sg * F(rng.choice([0, 1, 1000, 123456, 10 ** 6]) * 4 + rng.choice([0, 1, 3]), 4)) for _ in range(n)]
+        rs = [str(sg * F(rng.choice([0, 1, 1000, 123456, 10 ** 6, 10 ** 9, 10 ** 9 + 1000]) * 4 + rng.choice([0, 1, 3]), 4)) for _ in range(n)]
+    elif mode == "short" and rng.random() < .2:
+        rs = [rng.choice(NONDYADIC_REWARDS + ["0", "1"]) for _ in range(n)]
     if mode != "short" and rng.random() < .5:
         # make sure the far tail matters: non-zero rewards at the very end
         rs[-1] = str(F(rng.choice([-16, -7, 5, 16])))
@@ -396,6 +479,16 @@ def gen_pomdp_run(rng, tier, probe=False):
             others = [o for o in range(nO) if o not in [i for i, p in d["items"]]]
             if others and rng.random() < .3:
                 d["items"].insert(rng.randint(0, len(d["items"])), [rng.choice(others), "0"])
+    if nO >= 2:
+        for key in obs:
+            if rng.random() < .1:
+                d = gen_boundary_dist(rng, range(nO), True, TINY_WEIGHTS)
+                if d:
+                    obs[key] = d
+    if n >= 2 and rng.random() < .15:
+        d = gen_boundary_dist(rng, range(n), True, TINY_WEIGHTS)
+        if d:
+            m["init"] = d["items"]
     nN = rng.randint(1, 3)
     if kind == "belief":
         # value-based policies (agent state = Belief): a myopic ValueBasedTabularPOMDPPolicy subclass or msdm AlphaVectorPolicy;
@@ -445,8 +538,9 @@ def gen_pomdp_run(rng, tier, probe=False):
         ag0 = None if rng.random() < .6 else vec(nN)
     s0 = None if rng.random() < (.8 if kind == "belief" else .6) else rng.randrange(n)
     capn = 40 if cap == "large" else cap
+    tiny = .25 if has_tiny([m, obs]) else .04
     c = {"kind": "pomdp_run", "mdp": m, "obs": obs, "nO": nO, "ctrl": ctrl, "s0": s0, "ag0": ag0, "cap": cap,
-         "stream": gen_stream(rng, 3 * capn + 3, True), "gstream": gen_stream(rng, 4, True)}
+         "stream": gen_stream(rng, 3 * capn + 3, True, tiny), "gstream": gen_stream(rng, 4, True, tiny)}
     plabels = {}
     if kind == "fsc" or rng.random() < .5:
         plabels["actions"] = gen_labels(rng, nA, rng.choice(LABEL_STYLES))
@@ -478,11 +572,16 @@ def dist_lit(d):
 
 
 def stream_lit(xs):
-    return coqlist("(%d # %d)" % (x, DEN) for x in xs)
+    return coqlist(("(%d # %d)" % (x[0], 2 ** x[1])) if isinstance(x, list) else "(%d # %d)" % (x, DEN) for x in xs)
 
 
 def optnat(x):
     return "None" if x is None else "(Some %s)" % nat(x)
+
+
+def D(x):
+    """exact rational of the double msdm is given for the rational x"""
+    return F(float(F(x)))
 
 
 def mdp_lit(m):
@@ -490,7 +589,7 @@ def mdp_lit(m):
     ini = dist_lit({"t": "dict", "items": m["init"]})
     nxt = coqlist(coqlist(dist_lit({"t": "dict", "items": m["trans"]["%d,%d" % (s, a)]}) if "%d,%d" % (s, a) in m["trans"]
                           else "(DDet 0%nat)" for a in range(nA)) for s in range(n))
-    rew = coqlist("(%s, %s, %s, %s)" % (nat(s), nat(a), nat(ns), q(F(r)))
+    rew = coqlist("(%s, %s, %s, %s)" % (nat(s), nat(a), nat(ns), q(D(r)))
                   for (s, a, ns), r in ((tuple(map(int, k.split(","))), r) for k, r in m["reward"].items()))
     return " ".join([ini, nxt, rew, blist(m["absorbing"]), q(m["gamma"])])
 
@@ -563,7 +662,7 @@ def mdp_clauses(case, steps, final, s0, cap_int):
         row = m["trans"].get("%d,%d" % (s, a))
         if row is None or dweight({"t": "dict", "items": row}, ns) <= 0:
             return "successor with zero probability"
-        if F(r) != F(m["reward"].get("%d,%d,%d" % (s, a, ns), "0")):
+        if F(r) != D(m["reward"].get("%d,%d,%d" % (s, a, ns), "0")):          # bit-exact: the double msdm was given
             return "reward is not the model's reward of the step"
         if states[t + 1] != ns:
             return "consecutive steps do not chain"
@@ -610,7 +709,7 @@ def pomdp_clauses(case, steps, final, cap_int):
             return "successor with zero probability"
         if dweight(case["obs"]["%d,%d" % (a, ns)], o) <= 0:
             return "observation with zero probability"
-        if vlib.frac(r) != F(m["reward"].get("%d,%d,%d" % (s, a, ns), "0")):
+        if vlib.frac(r) != D(m["reward"].get("%d,%d,%d" % (s, a, ns), "0")):
             return "reward is not the model's reward of the step"
         if states[t + 1] != ns:
             return "consecutive steps do not chain"
@@ -681,7 +780,7 @@ def exact_vn(case, cap_int, s0):
             break
         a = next(x for x in range(m["nA"]) if dweight(pol[s], x) > 0)
         ns = next(y for y, p in m["trans"]["%d,%d" % (s, a)] if F(p) > 0)
-        total += disc * F(m["reward"].get("%d,%d,%d" % (s, a, ns), "0"))
+        total += disc * D(m["reward"].get("%d,%d,%d" % (s, a, ns), "0"))
         disc *= g
         s = ns
     return total
@@ -727,6 +826,7 @@ def run(ctx):
                  + [gen_mdp_eval(rng, tier, deterministic=(i % 3 == 0)) for i in range(75 * k)]
                  + [gen_pomdp_run(rng, tier, probe=(i == 0)) for i in range(120 * k)]
                  + [gen_returns(rng) for _ in range(30 * k)]
+                 + [gen_long(rng, tier, evaluate=(i % 3 == 2)) for i in range(3 if tier == "quick" else 12)]
                  + [gen_returns(rng, "long_half") for _ in range(2 if tier == "quick" else 8)]
                  + [gen_returns(rng, "long_small") for _ in range(6 if tier == "quick" else 40)])
     impl = ctx.impl("c14_impl.py", {"cases": cases}, shards=8 if tier == "quick" else 16)["results"]
@@ -893,7 +993,7 @@ def run(ctx):
             feats["stopped_at_absorbing"] += bool(steps) and case["mdp"]["absorbing"][res["final"]]
             feats["start_absorbing"] += (not steps and case["cap"] != 0)
             feats["sampled_start"] += case["s0"] is None
-            feats["ties_in_stream"] += any(x % (DEN // 8) == 0 for x in (case["gstream"] if ug else case["stream"])[:src["draws"]])
+            feats["ties_in_stream"] += any(isinstance(x, int) and x % (DEN // 8) == 0 for x in (case["gstream"] if ug else case["stream"])[:src["draws"]])
             if steps:
                 distinct.add(vlib.structural_hash([case["mdp"], case["policy"], case["s0"], case["cap"], steps, case.get("opts")]))
         elif kind == "mdp_eval":
